@@ -3,7 +3,7 @@ import re
 
 from lzlint.framework import rule
 from lzlint.core import (Prov, Callee, callee_of, strip_generics, last_seg, expr_walk, expr_str, op_local, op_place,
-                         op_const, const_val, guards_of, norm_cmp, switch_edges, reachable_without_edge)
+                         op_const, const_val, guards_of, norm_cmp, switch_edges, reachable_without_edge, self_field_of)
 
 READ_TRAITS = ('std::io::Read', 'no_std::Read', 'Read')
 WRITE_TRAITS = ('std::io::Write', 'no_std::Write', 'Write')
@@ -546,3 +546,53 @@ def counter_truth(ctx):
                                   expr_str(add[3])[:40], f.name, f.name))
     if n == 0:
         ctx.anchor_missing('counting pass-through wrappers')
+
+
+@rule('TAIL-FORWARD', ['C07'], floor=2)
+def tail_forward(ctx):
+    """A transforming writer whose transform reports how many bytes it could process (block filters
+    stop short of an instruction that may straddle the end of the buffer) forwards only the processed
+    prefix `buffer[..n]` within the call; the unprocessed tail `buffer[n..]` is kept for the next call.
+    Forwarding the tail untransformed makes the output depend on where the caller cut its writes (and
+    desynchronises the position the inverse filter assumes)."""
+    F = ctx.facts
+    n = 0
+    for f in F.fns:
+        if not (f.impl and last_seg(f.impl.get('trait')) == 'Write' and f.name == 'write'):
+            continue
+        prov = Prov(f)
+        transforms = []
+        for bi, t, c in f.calls():
+            if not c.local or c.trait or not t['dest']['ty'] == 'usize':
+                continue
+            for a in t['args'][1:]:
+                e = prov.operand(a, 0, '%d:T' % bi)
+                if e[0] == 'call' and e[1].endswith('index_mut') and self_field_of(e[2][0] if e[2][0][0] != 'ref' else e[2][0][1]):
+                    transforms.append(t)
+        if not transforms:
+            continue
+        for bi, t, c in f.calls():
+            if not ((is_trait_call(c, WRITE_TRAITS, 'write') or is_trait_call(c, WRITE_TRAITS, 'write_all')) and len(t['args']) > 1):
+                continue
+            e = prov.operand(t['args'][1], 0, '%d:T' % bi)
+            if not (e[0] == 'call' and e[1].endswith('index') and len(e[2]) == 2 and e[2][1][0] == 'agg'):
+                continue
+            rng = e[2][1]
+            kind = rng[1]
+            ops = rng[2]
+            start = ops[0] if ('Range::' in kind or 'RangeFrom::' in kind) and 'RangeTo' not in kind else None
+            end = ops[-1] if ('RangeTo' in kind or 'Range::' in kind) and 'RangeFrom' not in kind else None
+            def from_transform(x):
+                return x is not None and any(y[0] == 'call' and len(y) > 3 and any(y[3] is tt for tt in transforms) for y in expr_walk(x))
+            if not (from_transform(start) or from_transform(end)):
+                continue
+            n += 1
+            if from_transform(start):
+                ctx.violation('%s:unprocessed-tail-forwarded' % f.key, f.loc(bi),
+                              'the bytes after the processed count (%s) are written to the sink untransformed in the same call: '
+                              'the stream depends on the write partition and the decoder, which filters the stream '
+                              'contiguously, sees instructions at different offsets' % expr_str(e)[:90])
+            else:
+                ctx.ok('%s:processed-prefix-forwarded' % f.key, f.loc(bi), 'sink gets %s' % expr_str(e)[:90])
+    if n == 0:
+        ctx.anchor_missing('transforming writer with a partial-progress transform')
